@@ -275,6 +275,17 @@ func factsHashring() {
 			return true
 		})
 	}
+	selectedInit := "unknown"
+	if b := body(gts); b != nil {
+		ast.Inspect(b, func(n ast.Node) bool {
+			if as, ok := n.(*ast.AssignStmt); ok && len(as.Lhs) == 1 && text(as.Lhs[0]) == "selected" && len(as.Rhs) == 1 {
+				selectedInit = text(as.Rhs[0])
+				return false
+			}
+			return true
+		})
+	}
+	emitStr("shardSelectedInit", "pkg/receive/hashring.go getTenantShard: the per-zone set of already selected endpoints (keyed by ring-global endpoint index)", selectedInit)
 	emitList("shardTake", "pkg/receive/hashring.go getTenantShard: how many nodes are taken per zone", takeSkel)
 	emitStr("shardSubRing", "pkg/receive/hashring.go getTenantShard: the sub-ring construction", subRing)
 
